@@ -158,3 +158,37 @@ Fixpoint wrap_go (fuel w : nat) (crlf : bool) (s : bytes) : bytes :=
   end.
 Definition wrap (w : nat) (crlf : bool) (s : bytes) : bytes :=
   match w with O => s | _ => wrap_go (length s) w crlf s end.
+
+(* ---- the callers' side: texts live in byte buffers (Go slices) ----
+   Go passes DecodeAnyBase64 / WhichBase64 a slice: a window [off, off+len) of some backing
+   array.  The functions above take the TEXT (the bytes of the window); that they are
+   functions of the text alone is what the ops `twice` / `reuse` / `conc` of Run/C14.v
+   test on the implementation.  The definitions below are the model of what the harness
+   does with its buffers (copy(backing[off:], text); backing[off:off+len]). *)
+Definition window (off len : nat) (b : bytes) : bytes := take len (drop off b).
+Definition overwrite (off : nat) (t b : bytes) : bytes :=
+  take off b ++ t ++ drop (off + length t) b.
+
+(* one backing array refilled in place: each step writes a text at an offset and then
+   reads the window back; result: (the text the callee sees, the backing array) per step *)
+Fixpoint reuse_windows (b : bytes) (steps : list (nat * bytes)) : list (bytes * bytes) :=
+  match steps with
+  | [] => []
+  | (off, t) :: r =>
+      let b' := overwrite off t b in
+      (window off (length t) b', b') :: reuse_windows b' r
+  end.
+Definition steps_fit (n : nat) (steps : list (nat * bytes)) : bool :=
+  forallb (fun s => Nat.leb (fst s + length (snd s)) n) steps.
+
+(* bytes.Split(data, ".") *)
+Fixpoint split_on (sep : N) (s : bytes) : list bytes :=
+  match s with
+  | [] => [[]]
+  | c :: r =>
+      if c =? sep then [] :: split_on sep r
+      else match split_on sep r with
+           | h :: t => (c :: h) :: t
+           | [] => [[c]]
+           end
+  end.
